@@ -126,5 +126,22 @@ fn parse_header(&mut self) -> (r: DicWriteResult<(i16, i16)>)
                 && r->Ok_0 == 4 + self.matrix@.len(),
 //@end
 }
+
+/// C05, connection matrix, cell level (session 5): after the compiler stored `cost` for (left, right), the two bytes of that cell -
+/// which the loaded dictionary reads as one little-endian i16 (ConnectionMatrix::cost over CowArray<i16>: v_conn, k_cow) - denote `cost`,
+/// and every other cell keeps its bytes.  `le16` is concrete, so this is a fact about the bytes, not about an assumed pair.
+proof fn theorem_cell_roundtrip(before: Seq<u8>, after: Seq<u8>, c: int, cost: i16)
+    requires 0 <= c, 2 * c + 1 < before.len(),
+        after == before.update(2 * c, le16(cost)[0]).update(2 * c + 1, le16(cost)[1]),
+    ensures
+        i16_of(after[2 * c], after[2 * c + 1]) == cost,
+        forall|k: int| 0 <= k < before.len() && k != 2 * c && k != 2 * c + 1 ==> #[trigger] after[k] == before[k],
+        after.len() == before.len(),
+{ lemma_i16_roundtrip(cost); }
+/// the dimensions in front of the matrix are read back as written
+proof fn theorem_dims_roundtrip(l: i16, r: i16, m: Seq<u8>)
+    ensures ({ let d = le16(l) + le16(r) + m; d.len() == 4 + m.len() && i16_of(d[0], d[1]) == l && i16_of(d[2], d[3]) == r })
+{ lemma_i16_roundtrip(l); lemma_i16_roundtrip(r); }
+
 } // verus!
 fn main() {}
